@@ -112,6 +112,109 @@ class UObjective:
         self.stability_checks += 1
 
 
+class GramObjective:
+    """Dimension-free variant of UObjective: iterates, gradients and steps are Gram vectors (px.GV); every inner product the
+    real code forms is an entry of a symbolic Gram table constrained by the necessary conditions for a Gram matrix of real
+    vectors (non-negative diagonal, Cauchy-Schwarz), so an unsat verdict holds in EVERY dimension.  value/gradient are
+    memoised on the syntactic form of the argument (syntactically different arguments get independent values: a superset
+    of the behaviours of real objectives); the Hessian at a point is a symmetric linear operator (<H a, b> = <a, H b>)."""
+
+    def __init__(self, ex, spd_precond=False):
+        self.ex = ex
+        self.spd_precond = spd_precond
+        self.pbase = {}
+        self.p = None
+        self.scaling = 1.0
+        self.invScaling = 1.0
+        self.nan_at_trial = False
+        self.precond_updates = []
+        self.memo = {'f': {}, 'g': {}}
+        self.hbase = {}         # (point key, base id) -> base id of H(point) applied to that base
+        self.nf = 0
+
+    @staticmethod
+    def key(v):
+        return tuple(sorted((k, repr(px.unwrap(c))) for k, c in v.c.items()))
+
+    def value(self, x):
+        if self.nan_at_trial and self.memo['f']:
+            return float('nan')
+        k = self.key(x)
+        if k not in self.memo['f']:
+            self.memo['f'][k] = self.ex.real('f')
+        return self.memo['f'][k]
+
+    def gradient(self, x):
+        k = self.key(x)
+        if k not in self.memo['g']:
+            self.memo['g'][k] = self.ex.gram_base('g%d' % len(self.memo['g']))
+        return self.memo['g'][k]
+
+    def hessian_vec(self, x, v):
+        ex = self.ex
+        k = self.key(x)
+        out = px.GV({})
+        for b, coef in v.c.items():
+            if (k, b) not in self.hbase:
+                hb = ex.gram_base('H%d_%s' % (len({kk for kk, _ in self.hbase} | {k}) - 1, ex.gram_bases[b]))
+                hid = list(hb.c.keys())[0]
+                # symmetry of the Hessian at this point: <H a, b> = <a, H b> for all pairs of bases it was applied to
+                for (k2, b2), h2 in self.hbase.items():
+                    if k2 == k:
+                        ex.assume(px.SymBool(px._z(ex.gram_entry(hid, b2)) == px._z(ex.gram_entry(b, h2)))) if ex.symbolic else None
+                self.hbase[(k, b)] = hid
+            out = out + px.GV({self.hbase[(k, b)]: 1.0}) * coef
+        return out
+
+    def gradient_and_tangent(self, x):
+        return self.gradient(x), lambda v: self.hessian_vec(x, v)
+
+    def update_precond(self, x):
+        self.precond_updates.append(x)
+
+    def apply_precond(self, v):
+        return v
+
+    def multiply_by_approx_hessian(self, v):
+        if not self.spd_precond:
+            return v
+        # an arbitrary symmetric positive definite operator P (re-drawn at every preconditioner refresh): <P a, b> = <a, P b>,
+        # <P a, a> >= 0 and > 0 when <a, a> > 0
+        ex = self.ex
+        gen = len(self.precond_updates)
+        out = px.GV({})
+        for b, coef in v.c.items():
+            if (gen, b) not in self.pbase:
+                pb = ex.gram_base('P%d_%s' % (gen, ex.gram_bases[b]))
+                pid = list(pb.c.keys())[0]
+                if ex.symbolic:
+                    for (g2, b2), p2 in self.pbase.items():
+                        if g2 == gen:
+                            ex.assume(px.SymBool(px._z(ex.gram_entry(pid, b2)) == px._z(ex.gram_entry(b, p2))))
+                    ex.assume(px.SymBool(px._z(ex.gram_entry(pid, b)) >= 0))
+                    ex.assume(px.SymBool(z3.Implies(px._z(ex.gram_entry(b, b)) > 0, px._z(ex.gram_entry(pid, b)) > 0)))
+                self.pbase[(gen, b)] = pid
+            out = out + px.GV({self.pbase[(gen, b)]: 1.0}) * coef
+        return out
+
+    def check_stability(self, x):
+        pass
+
+
+def gram_realisable(ex):
+    """necessary conditions on the Gram entries created so far (diagonal >= 0, Cauchy-Schwarz for every created pair)"""
+    cs = []
+    keys = list(ex.gram.keys())
+    diag = {i: ex.gram[(i, i)] for (i, j) in keys if i == j}
+    for i, gii in diag.items():
+        cs.append(px._z(gii) >= 0)
+    for (i, j) in keys:
+        if i != j and i in diag and j in diag:
+            gij = px._z(ex.gram[(i, j)])
+            cs.append(gij * gij <= px._z(diag[i]) * px._z(diag[j]))
+    return cs
+
+
 def settings_sym(ex, mod, n_iters=3, incremental=False, precond_ip=False, check_stability=False):
     S = mod.Settings
     t1, t2, e1, e2, e3 = [ex.real(k) for k in ('t1', 't2', 'eta1', 'eta2', 'eta3')]
@@ -146,9 +249,11 @@ def make_step_harness(n, incremental, precond_ip, precond_kind, check_stability=
     def fn(ex):
         mod = px.load_module(REL)
         step, src, names = px.extract_step(mod, 'trust_region_minimize', select_inner_while)
-        obj = UObjective(ex, n, precond=precond_kind)
+        gram = (n == 'gram')
+        newvec = (lambda nm: ex.gram_base(nm)) if gram else (lambda nm: ex.vec(nm, n))
+        obj = GramObjective(ex, spd_precond=(precond_kind == 'spd')) if gram else UObjective(ex, n, precond=precond_kind)
         settings = settings_sym(ex, mod, incremental=incremental, precond_ip=precond_ip, check_stability=check_stability)
-        x = ex.vec('x', n)
+        x = newvec('x')
         g = obj.gradient(x)
         o = obj.value(x)
         gNorm = NP.linalg.norm(g)
@@ -161,7 +266,7 @@ def make_step_harness(n, incremental, precond_ip, precond_kind, check_stability=
 
         # the CG sub-solver is stubbed: arbitrary step, any step type, any iteration count (its guarantees are C06)
         def stub_solve(x_, r_, hv, precond, trSize_, settings_):
-            q = ex.vec('qNewton', n)
+            q = newvec('qNewton')
             kinds = [mod.boundaryString, mod.interiorString, mod.negCurveString, mod.interiorString + '_'][:nkinds]
             kind = ex.int('stepKind')
             ex.assume(kind >= 0)
@@ -176,7 +281,7 @@ def make_step_harness(n, incremental, precond_ip, precond_kind, check_stability=
             return q, None, st, it
         mod.solve_trust_region_minimization = stub_solve
         # the dogleg combination is C06's subject as well: here the trial step is an arbitrary vector
-        mod.dogleg_step = lambda cp, newtonP, trSize_, mat_mul: ex.vec('d', n)
+        mod.dogleg_step = lambda cp, newtonP, trSize_, mat_mul: newvec('d')
         events = []
 
         def callback(xx, oo):
@@ -210,6 +315,9 @@ def make_step_harness(n, incremental, precond_ip, precond_kind, check_stability=
         if mo is not None and is_sym(mo):
             # stated assumption: the model change of a trial step is not exactly zero (see DESIGN C01, signed-zero corner)
             ex.late_assume(SymBool(mo.z != 0))
+        if gram and ex.symbolic:
+            for cnd in gram_realisable(ex):
+                ex.late_assume(cnd)
         tr0 = calls[0]['trSize'] if calls else None
         trCur = ex.inputs.get('trSize_cur') if ex.symbolic else None
         fo = px.unwrap(o)
@@ -239,7 +347,7 @@ def make_step_harness(n, incremental, precond_ip, precond_kind, check_stability=
                 ex.goal('accepted_iterate_is_trial_point', Holds(loc['x'] is y and events[0][1] is y))
                 # invariant re-established
                 gnew = obj.gradient(loc['x'])
-                ex.goal('inv_gradient_refreshed', Eq(px.unwrap(loc['g']), px.unwrap(gnew)))
+                ex.goal('inv_gradient_refreshed', Holds(loc['g'] is gnew) if gram else Eq(px.unwrap(loc['g']), px.unwrap(gnew)))
                 if not nan_trial:
                     ex.goal('inv_objective_refreshed', Eq(px.unwrap(loc['o']), px.unwrap(obj.value(loc['x']))))
                 ex.goal('inv_gnorm_refreshed', Eq(px.unwrap(loc['gNorm'] * loc['gNorm']), px.unwrap(NP.dot(gnew, gnew))))
@@ -273,8 +381,8 @@ def _note(h, n, mode):
     mod = load_module(REL)
     h.encoded(*['optimism.EquationSolver:%s' % f for f in ('trust_region_minimize (outer for-body prefix + inner while body, extracted by AST from the current source)',
                                                           'is_converged', 'is_on_boundary', 'print_min_banner')])
-    h.bounds('dimension n=%d (component mode); objective: arbitrary (value, gradient, Hessian at each point are free reals, functionally consistent); '
-             'loop-head state: arbitrary x, trSize > 0, flags, counters subject to Inv; settings: %s; %s mode' % (n, ADMISSIBLE, mode))
+    h.bounds(('dimension n=%d (component mode)' % n if n != 'gram' else 'ANY dimension (Gram mode: vectors enter only through inner products)') + '; objective: arbitrary (value, gradient, Hessian at each point are free reals, functionally consistent); '
+             'loop-head state: arbitrary x, trSize > 0, flags, counters subject to Inv; settings: %s; %s mode' % (ADMISSIBLE, mode))
     h.assume_note('stub: solve_trust_region_minimization returns an arbitrary step, step type and iteration count, and dogleg_step an arbitrary trial step (their guarantees are property C06)',
                   'assumption: the model change g.d + d.H.d/2 of a trial step is not exactly 0 (signed-zero division corner; DESIGN C01)',
                   'stub: preconditioner = arbitrary positive scalar (n=1), re-drawn at every update_precond; print/format are no-ops; debug_info=False',
@@ -297,7 +405,8 @@ def _reg_step(obname, doc, mode_note, tiers, goals, **kw):
             _note(h, kw.get('n', 1), mode_note)
             px.run_px(h, 'step', make_step_harness(kw.get('n', 1), kw['incremental'], kw['precond_ip'], kw['precond_kind'],
                                                    check_stability=kw.get('check_stability', False), nkinds=kw.get('nkinds', 2)),
-                      cap=30, div_mode='goal', sqrt_mode='goal', shard=(w, NSHARD), shard_depth=5, feas_ms=100)
+                      cap=30, div_mode='goal', sqrt_mode='goal', shard=(w, NSHARD), shard_depth=5, feas_ms=100,
+                      gram_dim=(3 if kw.get('n', 1) == 'gram' else None))
         ob.__doc__ = doc
         obligation(P, '%s[shard %d/%d]' % (obname, w, NSHARD), tiers=tiers, cap=900)(ob)
 
@@ -306,6 +415,10 @@ _reg_step('O1.step_default_euclid', 'one inner-loop step of the real trust_regio
           'default objective-value', ('quick', 'thorough'), GOALS_DEFAULT, incremental=False, precond_ip=False, precond_kind='identity')
 _reg_step('O1.step_default_precond', 'same with the preconditioned inner product and an arbitrary positive preconditioner, all four step types, check_stability on',
           'default objective-value, preconditioned inner product', ('thorough',), GOALS_DEFAULT, incremental=False, precond_ip=True, precond_kind='spd', nkinds=4, check_stability=True)
+_reg_step('O1.step_default_gram', 'the same step in Gram mode: iterates, gradients and steps are dimension-free vectors whose inner products are symbolic Gram entries (Cauchy-Schwarz constrained) - the verdict holds in EVERY dimension; Euclidean inner product, identity preconditioner',
+          'default objective-value, any dimension (Gram mode)', ('quick', 'thorough'), GOALS_DEFAULT, incremental=False, precond_ip=False, precond_kind='identity', n='gram')
+_reg_step('O1.step_precond_gram', 'Gram mode with the preconditioned inner product: the approximate Hessian is an arbitrary symmetric positive definite operator, re-drawn at every refresh; all four step types',
+          'default objective-value, preconditioned inner product, any dimension (Gram mode)', ('thorough',), GOALS_DEFAULT, incremental=False, precond_ip=True, precond_kind='spd', n='gram', nkinds=4)
 _reg_step('O1.step_precond_2kinds', 'preconditioned inner product with an arbitrary positive preconditioner (two step types, no stability check): quick-tier rung of O1.step_default_precond',
           'default objective-value, preconditioned inner product', ('quick',), GOALS_DEFAULT, incremental=False, precond_ip=True, precond_kind='spd', nkinds=2)
 _reg_step('O2.step_incremental', 'incremental-objective mode: flag, callback and radius clauses (descent is not claimed by the property in this mode)',
